@@ -46,6 +46,39 @@ pub mod model_hash {
             }
         }
     }
+    impl<K: PartialEq, V> HashMap<K, V> {
+        pub fn with_capacity(_n: usize) -> Self { Self::new() }
+        pub fn entry(&mut self, key: K) -> Entry<'_, K, V> {
+            match self.find(&key) {
+                Some(idx) => Entry::Occupied(OccupiedEntry { map: self, idx }),
+                None => Entry::Vacant(VacantEntry { map: self, key }),
+            }
+        }
+    }
+    pub enum Entry<'a, K, V> { Occupied(OccupiedEntry<'a, K, V>), Vacant(VacantEntry<'a, K, V>) }
+    pub struct OccupiedEntry<'a, K, V> { map: &'a mut HashMap<K, V>, idx: usize }
+    pub struct VacantEntry<'a, K, V> { map: &'a mut HashMap<K, V>, key: K }
+    impl<'a, K, V> OccupiedEntry<'a, K, V> {
+        pub fn get(&self) -> &V { &self.map.slots[self.idx].as_ref().unwrap().1 }
+        pub fn get_mut(&mut self) -> &mut V { &mut self.map.slots[self.idx].as_mut().unwrap().1 }
+        pub fn into_mut(self) -> &'a mut V { &mut self.map.slots[self.idx].as_mut().unwrap().1 }
+        pub fn key(&self) -> &K { &self.map.slots[self.idx].as_ref().unwrap().0 }
+        pub fn insert(&mut self, v: V) -> V { std::mem::replace(&mut self.map.slots[self.idx].as_mut().unwrap().1, v) }
+    }
+    impl<'a, K, V> VacantEntry<'a, K, V> {
+        pub fn key(&self) -> &K { &self.key }
+        pub fn insert(self, v: V) -> &'a mut V {
+            assert!(self.map.n < MODEL_HASH_CAP, "model capacity");
+            let i = self.map.n;
+            self.map.slots[i] = Some((self.key, v));
+            self.map.n += 1;
+            &mut self.map.slots[i].as_mut().unwrap().1
+        }
+    }
+    impl<'a, K, V> Entry<'a, K, V> {
+        pub fn or_insert(self, d: V) -> &'a mut V { match self { Entry::Occupied(e) => e.into_mut(), Entry::Vacant(e) => e.insert(d) } }
+        pub fn or_insert_with<F: FnOnce() -> V>(self, f: F) -> &'a mut V { match self { Entry::Occupied(e) => e.into_mut(), Entry::Vacant(e) => e.insert(f()) } }
+    }
     impl<K: PartialEq, V> FromIterator<(K, V)> for HashMap<K, V> {
         fn from_iter<I: IntoIterator<Item = (K, V)>>(it: I) -> Self { let mut m = HashMap::new(); for (k, v) in it { m.insert(k, v); } m }
     }
